@@ -187,6 +187,8 @@ func newQueryFrame(v primitive.ProtocolVersion, stream int16, q string) *frameT 
 // hammer: concurrent well-behaved clients issuing requests while the faults are applied (query plans in flight during
 // membership changes; used under the race detector)
 var topoHammer int
+var topoTrace string
+var topoTraceAppend bool
 
 func runTopoBehaviour(beh []topoStep, res *topoResult, base, max time.Duration, budget time.Duration) error {
 	t := tracer.New()
@@ -296,6 +298,21 @@ func runTopoBehaviour(beh []topoStep, res *topoResult, base, max time.Duration, 
 			res.Delays[i].WaitedNs = ts - openTs[k]
 			delete(open, k)
 		}
+	}
+	if topoTrace != "" {
+		// the reconnect events of this behaviour, for validation against Pool.tla
+		var out []tracer.Event
+		out = append(out, tracer.Event{"ev": "Reset"})
+		for _, ev := range t.Events() {
+			switch ev["ev"] {
+			case "H.delay", "H.slotfill", "H.slotclear", "H.outage":
+				out = append(out, ev)
+			}
+		}
+		if err := tracer.WriteNDJSON(topoTrace, out, topoTraceAppend); err != nil {
+			return err
+		}
+		topoTraceAppend = true
 	}
 	for _, ev := range t.Events() {
 		ts, _ := ev["ts"].(int64)
@@ -437,6 +454,7 @@ func init() {
 		baseMs := fs.Int("base", 5, "reconnect base delay (ms)")
 		maxMs := fs.Int("max", 60, "reconnect max delay (ms)")
 		budget := fs.Int("budget", 6000, "convergence budget per step (ms)")
+		fs.StringVar(&topoTrace, "trace", "", "write the reconnect events of every behaviour to this file")
 		fs.IntVar(&topoHammer, "hammer", 0, "concurrent clients issuing requests while faults are applied")
 		_ = fs.Parse(args)
 		res := &topoResult{BaseNs: int64(*baseMs) * 1e6, MaxNs: int64(*maxMs) * 1e6}
